@@ -316,9 +316,9 @@ func main() {
 		if tier == "thorough" {
 			r.exhaustive()
 		}
-		nHist, nSteps := 500, 90
+		nHist, nSteps := 420, 150
 		if tier == "thorough" {
-			nHist, nSteps = 12000, 100
+			nHist, nSteps = 12000, 150
 		}
 		nHist = envInt("VERIF_HISTORIES", nHist)
 		nSteps = envInt("VERIF_STEPS", nSteps)
@@ -349,7 +349,10 @@ func main() {
 				}
 				// directed scenarios after the structure-building phase and in the middle
 				rel := step - len(pre)
-				if (rel == 12 || rel == 40 || rel == 65) && len(pending) == 0 {
+				if rel == 0 && hI%3 != 2 {
+					pending = g.buildL1(p) // two histories of three start from a populated structure
+				}
+				if (rel == 45 || rel == 80 || rel == 115) && len(pending) == 0 {
 					pending = g.scenario(p)
 				}
 				for len(pending) > 0 {
